@@ -1,6 +1,6 @@
 #!/bin/sh
 # usage: tools/mutcheck.sh <patch.diff> <Cxx> [tier]   -- apply a seeded change to /repo, run the check, undo it
-P="$1"; C="$2"; T="${3:-quick}"
+P="$(realpath "$1")"; C="$2"; T="${3:-quick}"
 git -C /repo apply "$P" || { echo "patch does not apply"; exit 9; }
 cd /verif && VERIF_EVIDENCE_DIR=/tmp/mut_evidence ./check "$C" --tier "$T" > /tmp/mutcheck.$$.log 2>&1; rc=$?
 git -C /repo checkout -- . 
